@@ -447,7 +447,7 @@ func VerifRun() {
 	process := int64(vrt.Param("p"))
 	ev, jl := vrt.Param("ev"), vrt.Param("jl")
 	q := specQuorum(n)
-	vrt.Unwind(k + 3)
+	vrt.Unwind(k + 12) // the Run loop needs k+2; the filter loops inside run over the delivered justifications
 
 	var log []vBcast
 	decides := 0
